@@ -248,6 +248,10 @@ type sigState struct {
 	failed         bool
 	failF1, failF2 bool
 	failDepth      int
+	// hadPrefixPair: at some time the tree-level reference key set held a key
+	// that is a proper byte-prefix of another key (an internal node with an
+	// embedded leaf existed)
+	hadPrefix, failPrefix bool
 }
 
 func (s *sigState) scan(tree mkvs.Tree) {
@@ -273,12 +277,22 @@ func (s *sigState) depth(m map[string][]byte) {
 	if d := trieDepth(ks); d > s.maxDepth {
 		s.maxDepth = d
 	}
+	if !s.hadPrefix {
+		// in sorted order a proper prefix of some key is a prefix of its successor
+		sk := sortedKeys(m)
+		for i := 0; i+1 < len(sk); i++ {
+			if len(sk[i]) < len(sk[i+1]) && strings.HasPrefix(sk[i+1], sk[i]) {
+				s.hadPrefix = true
+				break
+			}
+		}
+	}
 }
 
 // snapshot scans once more and freezes the flags (called at a failure).
 func (s *sigState) snapshot(tree mkvs.Tree) {
 	s.scan(tree)
-	s.failed, s.failF1, s.failF2, s.failDepth = true, s.f1, s.f2, s.maxDepth
+	s.failed, s.failF1, s.failF2, s.failDepth, s.failPrefix = true, s.f1, s.f2, s.maxDepth, s.hadPrefix
 }
 
 // scanningWL scans the tree between the entries of an applied write log.
@@ -368,6 +382,11 @@ func trieDepth(keys [][]byte) int {
 	return 1 + max(trieDepth(s0), trieDepth(s1))
 }
 
+const findingRules = "a failing case (S violation, panic or unexpected error) of mode PID is a finding, rules tried in this order: " +
+	"(1) PID:embedded-leaf-evicted-under-dirty-internal-node iff 0 < value_cap < 16777216 and, at or before the first failure, either mkvs.VerifScan reported DirtyNodeWithEvictedLeaf > 0 or the tree-level reference key set contained a key that is a proper byte-prefix of another key (the empty key with any other key included); " +
+	"(2) PID:node-capacity-not-above-path-depth iff 0 < node_cap <= D+1, D = the maximum so far of the number of internal nodes on a root-to-leaf path of the compressed binary trie over the tree-level reference key set; " +
+	"(3) otherwise it is an ordinary violation. A pair/twin violation is attributed to the finding of a member that satisfies (1) or (2) with its flags over its whole run."
+
 const (
 	findingF1 = "embedded-leaf-evicted-under-dirty-internal-node"
 	findingF2 = "node-capacity-not-above-path-depth"
@@ -375,13 +394,13 @@ const (
 
 // classify maps a failing case to a finding key ("" = ordinary violation) and
 // the mechanism text that prefixes the finding's description.
-func classify(c Case, f1 bool, depth int) (key, mechanism string) {
+func classify(c Case, f1, prefixPair bool, depth int) (key, mechanism string) {
 	pid := "C02"
 	if c.Mode == "c03" {
 		pid = "C03"
 	}
 	switch {
-	case f1 && c.ValueCap > 0:
+	case c.ValueCap > 0 && c.ValueCap < 16777216 && (f1 || prefixPair):
 		return pid + ":" + findingF1, "value-cache eviction of the embedded leaf of a dirty internal node (LeafNode.Node == nil): "
 	case c.NodeCap > 0 && c.NodeCap <= uint64(depth)+1:
 		return pid + ":" + findingF2, fmt.Sprintf("node capacity %d <= path depth %d+1, a node on the active path is evicted: ", c.NodeCap, depth)
@@ -405,7 +424,8 @@ func recordFinding(sum *coqout.Summary, key, what string, c Case, sig sigState, 
 	}
 	sc, swhat := shrink()
 	fs[key] = map[string]any{"case": sc, "what": swhat, "count": 1,
-		"sig_dirty_node_with_evicted_leaf": sig.failF1, "sig_dirty_pointer_without_node": sig.failF2, "max_path_depth": sig.failDepth}
+		"sig_dirty_node_with_evicted_leaf": sig.failF1, "sig_dirty_pointer_without_node": sig.failF2, "max_path_depth": sig.failDepth, "had_prefix_pair": sig.failPrefix}
+	sum.Extra["finding_rules"] = findingRules
 }
 
 // counts collects histogram increments of one case.
